@@ -16,19 +16,19 @@ def cfg(name, **kw):
 cfg("accept", Systems="= {}", KTimes="<- KT_all", KConcs="<- KC_all", Wrongs="<- W_all", Modes='= {"accept"}',
     EqTemplates="<- Eq_all", EqWrongs="<- EW_all")
 cfg("refuse", Systems="<- Sys_q", KTimes="<- KT_two", KConcs="<- KC_all", Wrongs='= {"conc-", "time2"}')
-cfg("rates_q", Modes='= {"inline", "named", "mixed"}')
-cfg("laws_q", Systems='= {"bi", "chain", "ter"}', KTimes='= {"min"}', KConcs='= {"mM"}', CPlans='= {2}', Laws='= {"arrhenius", "eyring", "alt"}',
+cfg("rates_q", Modes='= {"inline", "named", "mixed"}', CPlans="<- Plans_q")
+cfg("laws_q", Systems='= {"bi", "chain", "ter"}', KTimes='= {"min"}', KConcs='= {"mM"}', CPlans='= {2}', Laws='= {"arrhenius", "eyring", "alt", "hs"}',
     Modes='= {"inline", "named", "subs"}', KRegs="<- KRegs6", TSources='= {"param", "subs", "ramp"}', Outs="<- Outs_q")
 cfg("rad_q", Systems='= {"zero", "feed", "zero2"}', KTimes='= {"min", "h"}', KConcs='= {"mM", "M"}', CPlans='= {0, 1, 2}', Laws='= {"rad"}',
     Modes='= {"inline", "named", "subs", "mixed"}', KRegs="<- KRegs6")
-cfg("laws_t", Systems="<- Sys_laws", KTimes="<- KT_two", KConcs="<- KC_two", CPlans='= {1}', Laws='= {"arrhenius", "eyring", "alt"}',
+cfg("laws_t", Systems="<- Sys_laws", KTimes="<- KT_two", KConcs="<- KC_two", CPlans='= {1}', Laws='= {"arrhenius", "eyring", "alt", "hs"}',
     Modes='= {"inline", "named", "subs", "mixed"}', KRegs="<- KRegs6", TSources='= {"param", "subs", "ramp"}', Outs="<- Outs_one")
 cfg("subs_t", Modes='= {"subs", "mixed"}')
-cfg("rates_t", Systems="<- Sys_all", KTimes="<- KT_all", KConcs="<- KC_all", CPlans="<- Plans_two", TUnits='= {"s"}',
+cfg("rates_t", Systems="<- Sys_all", KTimes="<- KT_all", KConcs="<- KC_all", CPlans="<- Plans_t", TUnits='= {"s"}',
     KRegs="<- KRegs6", Outs="<- Outs_one")
 cfg("regs_t", Systems='= {"bi", "chain"}', KTimes='= {"h"}', KConcs='= {"uM"}', CPlans='= {1}', KRegs="<- KRegs108", Outs="<- Outs_three",
     TUnits='= {"ms", "h"}')
 cfg("solver_q", Systems='= {"uni", "chain"}', KTimes='= {"s"}', KConcs='= {"M"}', KRegs="<- KRegs2", Modes='= {"solver"}',
-    CallKinds="<- Calls_all", MaxCalls="= 3")
+    CallKinds="<- Calls_all", MaxCalls="= 2")
 cfg("solver_t", Systems='= {"uni", "chain", "mix"}', KTimes='= {"s"}', KConcs='= {"M"}', KRegs="<- KRegs3", Modes='= {"solver"}',
     CallKinds="<- Calls_all", MaxCalls="= 3")
